@@ -26,10 +26,16 @@ const (
 	OIDTimestamp   = 1114
 	OIDTimestamptz = 1184
 	OIDUUID        = 2950
+	// character-like types: the value is its text in both formats, except that
+	// binary jsonb is prefixed with its version byte (1)
+	OIDName   = 19
+	OIDJSON   = 114
+	OIDBPChar = 1042
+	OIDJSONB  = 3802
 )
 
 // CoveredOIDs lists the column types the independent codecs cover.
-var CoveredOIDs = []uint32{OIDBool, OIDBytea, OIDInt8, OIDInt2, OIDInt4, OIDText, OIDOid, OIDFloat4, OIDFloat8, OIDVarchar, OIDDate, OIDTimestamp, OIDTimestamptz, OIDUUID}
+var CoveredOIDs = []uint32{OIDBool, OIDBytea, OIDInt8, OIDInt2, OIDInt4, OIDText, OIDOid, OIDFloat4, OIDFloat8, OIDVarchar, OIDDate, OIDTimestamp, OIDTimestamptz, OIDUUID, OIDName, OIDJSON, OIDBPChar, OIDJSONB}
 
 // Value is the canonical, comparable form of a SQL value.
 type Value struct {
@@ -98,7 +104,7 @@ func KindOf(oid uint32) string {
 		return "f32"
 	case OIDFloat8:
 		return "f64"
-	case OIDText, OIDVarchar:
+	case OIDText, OIDVarchar, OIDName, OIDJSON, OIDBPChar, OIDJSONB:
 		return "text"
 	case OIDBytea:
 		return "bytes"
@@ -181,8 +187,13 @@ func decodeBinary(oid uint32, b []byte) (Value, error) {
 			return Value{}, err
 		}
 		return Value{Kind: "f64", F: binary.BigEndian.Uint64(b)}, nil
-	case OIDText, OIDVarchar:
+	case OIDText, OIDVarchar, OIDName, OIDJSON, OIDBPChar:
 		return Value{Kind: "text", S: string(b)}, nil
+	case OIDJSONB:
+		if len(b) == 0 || b[0] != 1 {
+			return Value{}, fmt.Errorf("binary jsonb does not start with version byte 1: %q", b)
+		}
+		return Value{Kind: "text", S: string(b[1:])}, nil
 	case OIDBytea:
 		return Value{Kind: "bytes", B: append([]byte{}, b...)}, nil
 	case OIDUUID:
@@ -262,7 +273,7 @@ func decodeText(oid uint32, s string) (Value, error) {
 			return Value{}, err
 		}
 		return Value{Kind: "f64", F: math.Float64bits(f)}, nil
-	case OIDText, OIDVarchar:
+	case OIDText, OIDVarchar, OIDName, OIDJSON, OIDBPChar, OIDJSONB:
 		return Value{Kind: "text", S: s}, nil
 	case OIDBytea:
 		if strings.HasPrefix(s, `\x`) {
@@ -481,8 +492,10 @@ func Encode(oid uint32, format int16, v Value) ([]byte, error) {
 			return binary.BigEndian.AppendUint32(nil, uint32(v.F)), nil
 		case OIDFloat8:
 			return binary.BigEndian.AppendUint64(nil, v.F), nil
-		case OIDText, OIDVarchar:
+		case OIDText, OIDVarchar, OIDName, OIDJSON, OIDBPChar:
 			return []byte(v.S), nil
+		case OIDJSONB:
+			return append([]byte{1}, v.S...), nil
 		case OIDBytea, OIDUUID:
 			return append([]byte{}, v.B...), nil
 		}
@@ -500,7 +513,7 @@ func Encode(oid uint32, format int16, v Value) ([]byte, error) {
 		return []byte(fmtFloat(float64(math.Float32frombits(uint32(v.F))), 32)), nil
 	case OIDFloat8:
 		return []byte(fmtFloat(math.Float64frombits(v.F), 64)), nil
-	case OIDText, OIDVarchar:
+	case OIDText, OIDVarchar, OIDName, OIDJSON, OIDBPChar, OIDJSONB:
 		return []byte(v.S), nil
 	case OIDBytea:
 		return []byte(`\x` + hex.EncodeToString(v.B)), nil
